@@ -302,6 +302,7 @@ class Types:
         self.enum_ctypes = {}
         self.oomd_structs = set()
         self.pair_elems = {}
+        self.array_len = {}
         self.tuple_elems = {}
         self.assoc_iter = {}
 
@@ -436,6 +437,8 @@ class Types:
                 return self.note('json_t', 'handle')
             if t in ('Json::ValueType',):
                 return self.note('int', 'scalar')
+            if t in ('std::ostream', 'std::basic_ostream<char>', 'ostream'):
+                return self.note('ostream_t', 'handle')      # an output sink (writes are kept with config keep_streams)
             if t in ('FILE', '_IO_FILE', 'struct _IO_FILE'):
                 return self.note('FILE_t', 'handle')
             if t in ('DIR', '__dirstream', 'struct __dirstream'):
@@ -533,6 +536,11 @@ class Types:
             return self.note('function_t', 'handle')
         if name == 'std::array' and args and strip_cvref(args[0]) == 'char':
             return self.note('str_t', 'handle')      # char buffer (only ever handed to logging / libc text functions)
+        if name == 'std::array' and args and len(args) == 2 and args[1].strip().isdigit():
+            e = self.ctype(args[0])
+            ct = 'arr%s_%s' % (args[1].strip(), sanitize(e))
+            self.array_len[ct] = int(args[1].strip())
+            return self.note(ct, 'value', e)
         if name in ('std::initializer_list', 'initializer_list'):
             return self.note('initlist_t', 'handle')
         if name in ('std::fpos',):
@@ -1033,7 +1041,15 @@ class FnEmitter:
         e = self.expr(obj)
         k = self.ty.kind(oct_)
         if oct_.endswith(' *'):
-            return e, oct_[:-2]
+            base = oct_[:-2]
+            so = self.strip_all(obj)
+            while so.get('kind') == 'ImplicitCastExpr':
+                so = self.strip_all(kids(so)[0])
+            real_ptr = so.get('kind') == 'DeclRefExpr' and \
+                (so.get('referencedDecl', {}).get('type', {}).get('qualType', '').rstrip().endswith('*'))
+            if real_ptr and self.ty.kind(base) == 'value' and not self.ty.is_oomd_struct(base) and not mutating:
+                return '(*%s)' % e, base      # a C++ pointer variable to a library value type; non-mutating receivers are by value
+            return e, base
         if self.ty.is_oomd_struct(oct_) and self.strip(obj).get('valueCategory') == 'lvalue':
             return '&' + e, oct_        # methods of struct-modelled classes take the object by pointer
         if k == 'value' and mutating:
@@ -1110,7 +1126,7 @@ class FnEmitter:
                 ct = self.ct(n)
             except Unsupported:
                 return call
-            if self.ty.is_oomd_struct(ct):
+            if self.ty.is_oomd_struct(ct) or self.idx.qname.get(rid) in self.cfg.get('scalar_ref_returns', []):
                 return '(*%s)' % call
         return call
 
@@ -1160,6 +1176,12 @@ class FnEmitter:
             name = ref.get('name', '')
             if name in ('move', 'forward', 'ref', 'cref', 'addressof') and len(args) == 1 \
                     and ref.get('id') not in self.idx.qname:
+                a0 = self.strip_all(args[0])
+                if name == 'move' and self.cfg.get('model_moves') and a0.get('kind') == 'DeclRefExpr' \
+                        and a0.get('referencedDecl', {}).get('kind') in ('VarDecl', 'ParmVarDecl') \
+                        and self.ct(args[0]) in self.cfg.get('model_moves'):
+                    # the moved-from object stays valid but its value is unspecified afterwards
+                    return 'MOVE__%s(&%s)' % (sanitize(self.ct(args[0])), self.expr(args[0]))
                 return self.expr(args[0])
             if name == 'make_shared' and ref.get('id') not in self.idx.qname:
                 rct = self.ct(n)
@@ -1194,6 +1216,9 @@ class FnEmitter:
         name = ref.get('name', '')
         op = name[len('operator'):].strip()
         if is_log_type(n.get('type')) or (args and is_log_type(args[0].get('type')) and op == '<<'):
+            kept = self.stream_write(n) if self.cfg.get('keep_streams') else None
+            if kept is not None:
+                return kept
             return self.log_expr(n)
         a0 = args[0]
         ct0 = self.ct(a0)
@@ -1229,6 +1254,8 @@ class FnEmitter:
             return '(%s%s)' % (e0, op) if len(args) == 2 else '(%s%s)' % (op, e0)
         if op == '*' and len(args) == 1 and ct0.startswith('uptr_') and el and self.ty.is_oomd_struct(el):
             return '(*%s__op_arrow(%s))' % (sanitize(ct0), self.expr(a0))
+        if op == '[]' and re.match(r'^arr\d+_', ct0) and len(args) == 2:
+            return '(*%s__at_ref(&%s, %s))' % (sanitize(ct0), self.expr(a0), self.expr(args[1]))
         if op == '[]' and (ct0.startswith('umap_') or ct0 == 'json_t') and len(args) == 2:
             # map operator[]: inserts when absent and yields an lvalue
             return '(*%s__at_ref(%s, %s))' % (sanitize(ct0), self.expr(a0), self.expr(args[1]))
@@ -1359,6 +1386,46 @@ class FnEmitter:
         return self.u.strlit('__func__')
 
     # -- logging
+    def stream_write(self, n):
+        """config keep_streams: `sink << a << b` where sink is a plain std::ostream (a parameter, std::cerr) is the
+        function's observable output: ostream_t__put__<type>(sink, value), manipulators become ostream_t__<name>(sink).
+        LogStream / ostringstream expressions stay dropped."""
+        def plain_ostream(x):
+            t = x.get('type', {})
+            tt = (t.get('desugaredQualType') or '') + ' ' + (t.get('qualType') or '')
+            return ('basic_ostream' in tt or 'std::ostream' in tt) and 'LogStream' not in tt and 'stringstream' not in tt
+
+        def build(x):
+            x = self.strip_all(x)
+            if x.get('kind') == 'CXXOperatorCallExpr':
+                ks = kids(x)
+                cal = self.strip_all(ks[0])
+                while cal.get('kind') == 'ImplicitCastExpr':
+                    cal = self.strip_all(kids(cal)[0])
+                nm = cal.get('referencedDecl', {}).get('name', '')
+                if nm == 'operator<<' and len(ks) == 3:
+                    left = build(ks[1])
+                    if left is None:
+                        return None
+                    rhs = self.strip_all(ks[2])
+                    while rhs.get('kind') == 'ImplicitCastExpr':
+                        rhs = self.strip_all(kids(rhs)[0])
+                    rd = rhs.get('referencedDecl', {})
+                    if rhs.get('kind') == 'DeclRefExpr' and rd.get('kind') == 'FunctionDecl' and rd.get('name') in ('flush', 'endl'):
+                        return 'ostream_t__%s(%s)' % (rd['name'], left)
+                    return 'ostream_t__put__%s(%s, %s)' % (sanitize(self.ct(ks[2])), left, self.expr(ks[2]))
+                return None
+            while x.get('kind') == 'ImplicitCastExpr':
+                x = self.strip_all(kids(x)[0])
+            if x.get('kind') == 'DeclRefExpr' and plain_ostream(x):
+                r = x.get('referencedDecl', {})
+                if r.get('kind') == 'ParmVarDecl':
+                    return sanitize(r['name'])
+                if r.get('name') in ('cerr', 'cout', 'clog'):
+                    return 'ostream_t__std_%s' % r['name']
+            return None
+        return build(n)
+
     def log_expr(self, n):
         """An OLOG / ostream expression: dropped.  Control::DISABLE/ENABLE kept."""
         ctrl = []
@@ -1410,6 +1477,10 @@ class FnEmitter:
                 self.w('}')
                 return
         if is_log_type(n.get('type')):
+            kept = self.stream_write(n) if self.cfg.get('keep_streams') else None
+            if kept is not None:
+                self.w(kept + ';')
+                return
             e = self.log_expr(n)
             if e != 'LOG_VALUE':
                 self.w(e + ';')
@@ -1517,7 +1588,16 @@ class FnEmitter:
         is_ref = qt.endswith('&') or dq.endswith('&')
         is_const = qt.startswith('const ') or dq.startswith('const ')
         if d.get('storageClass') == 'static' and not (d.get('constexpr') and init is not None):
-            self.unsupported(d, 'static local')
+            if self.ty.kind(ct) != 'scalar':
+                self.unsupported(d, 'static local of non-scalar type')
+            # function-local static: one object per program, or - thread_local - one per thread (ghost_tid selects it)
+            g = '%s__%s' % (self.cname, name)
+            tls = bool(d.get('tls'))
+            self.u.static_locals[g] = (ct, tls)
+            self.renames[d['id']] = '%s[%s]' % (g, 'ghost_tid' if tls else '0')
+            self.dropped.append('initialiser of static%s local %s at line %s (the harness chooses the initial value)' % (
+                ' thread_local' if tls else '', name, self.loc(d)))
+            return
         if init is None:
             if self.ty.kind(ct) == 'scalar' or ct.endswith('*'):
                 self.w('%s %s;' % (ct, name))
@@ -1872,7 +1952,7 @@ class FnEmitter:
                 self.ret_ct = self.ty.ctype(self.u.desugar_ret(fn, rt))
             self.ret_by_ref = False
             if rt.rstrip().endswith('&') and not rt.rstrip().endswith('&&') and \
-                    self.ty.is_oomd_struct(self.ret_ct):
+                    (self.ty.is_oomd_struct(self.ret_ct) or self.qname in self.cfg.get('scalar_ref_returns', [])):
                 self.ret_ct = self.ret_ct + ' *'
                 self.ret_by_ref = True
         ps = []
@@ -2063,6 +2143,7 @@ class Unit:
         self.lock_of = {}
         self.lifted = []     # (sig, lines, manifest)
         self.globals = {}
+        self.static_locals = {}
         os.makedirs(workdir, exist_ok=True)
         self.tus = {}
         self.index = None
@@ -2359,6 +2440,17 @@ class Unit:
             if len(inst) != 1:
                 raise Unsupported('function %s: %d instantiated bodies among %d' % (qname, len(inst), len(cands)))
             return inst[0]
+        if isinstance(pick, dict) and 'param' in pick:
+            # overload / explicit specialization selected by the text of its first parameter's type
+            sel = []
+            for c in cands:
+                ps = [x for x in kids(c) if x.get('kind') == 'ParmVarDecl']
+                t = ps[0].get('type', {}) if ps else {}
+                if pick['param'] in (t.get('qualType', '') + ' ' + t.get('desugaredQualType', '')):
+                    sel.append(c)
+            if len(sel) != 1:
+                raise Unsupported('function %s: %d bodies with a first parameter matching %r' % (qname, len(sel), pick['param']))
+            return sel[0]
         if pick is not None:
             return cands[pick]
         if len(cands) > 1:
@@ -2519,6 +2611,12 @@ class Unit:
                     nm, 1000000 + (zlib.crc32(text.encode()) & 0xffffff), json.dumps(text)))
         if self.exc_kinds:
             pass
+        if self.static_locals:
+            out.append('/* function-local statics: [ghost_tid] selects the calling thread\'s copy of a thread_local one */')
+            out.append('#ifndef ACXX_NTHREADS\n#define ACXX_NTHREADS 2\n#endif')
+            out.append('unsigned ghost_tid;')
+            for g, (ct, tls) in sorted(self.static_locals.items()):
+                out.append('%s %s[%s];' % (ct, g, 'ACXX_NTHREADS' if tls else '1'))
         out.append('#include "%s"' % self.cfg['spec'])
         body = []
         for sig, lines, dropped, cname, line in self.lifted:
